@@ -384,6 +384,8 @@ RAW_POOL = (
     [0x20, 0x21, 0x23, 0x2F, 0x5B, 0x5D, 0x7E, 0x7F, 0x80, 0xA0, 0xE9, 0xFF, 0x100, 0x3A9, 0x2028, 0x2029,
      0x6F22, 0xD7FF, 0xE000, 0xFEFF, 0xFFFD, 0xFFFF, 0x10000, 0x1F600, 0x10FFFF]
     + [ord(c) for c in "abcxyz019 {}[]:,'etnu-+.E"]
+    # letters whose case mappings change the length of a text or leave ASCII (the exponent marker of json.pest is ^"e")
+    + [0xDF, 0x1E9E, 0xFB01, 0x130, 0x131, 0x212A, 0x17F, 0x149, 0x390, 0xDF, 0x130, 0xFB01]
 )
 
 
